@@ -532,18 +532,21 @@ _asn1f_compare_tags_impl(arg_t *arg, asn1p_expr_t *a, asn1p_expr_t *b) {
 		return 0;
 	}
 
-	if(rb && b->expr_type == ASN_CONSTR_CHOICE) {
+	/*
+	 * There is nothing to look into on the (a) side. If (b) is a type
+	 * reference or a CHOICE without a tag of its own, look into (b)
+	 * the same way.
+	 * Do not mark (a) and (b) with TM_RECURSION while doing so:
+	 * asn1f_fetch_outmost_tag() does not follow a marked type reference,
+	 * so the tag of (a) would be unknown to the nested comparisons.
+	 * Types defined through themselves are stopped by the depth limit
+	 * of _asn1f_compare_tags().
+	 */
+	if(rb && (b->meta_type == AMT_TYPEREF
+			|| b->expr_type == ASN_CONSTR_CHOICE)) {
 		return _asn1f_compare_tags(arg, b, a);
 	}
 
-	if(a->_mark & TM_RECURSION) return 0;
-	if(b->_mark & TM_RECURSION) return 0;
-	a->_mark |= TM_RECURSION;
-	b->_mark |= TM_RECURSION;
-	ret = _asn1f_compare_tags(arg, b, a);
-	a->_mark &= ~TM_RECURSION;
-	b->_mark &= ~TM_RECURSION;
-
-	return ret;
+	return 0;
 }
 
